@@ -19,6 +19,8 @@ from common import frac_str
 
 CONFIG_LEVELS = [(1, 2), (1, 3), (2, 3), (2, 4)]
 DOMAINS = [(0.0, 1.0), (-1.0, 1.0), (2.0, 6.0), (-3.0, 6.0), (0.0, 0.5)]
+# scale extremes (dyadic, so everything stays exact): far from the origin on both sides, tiny intervals
+EXTREME_DOMAINS = [(4096.0, 4097.0), (-8192.0, -8191.5), (0.0, 2.0 ** -40), (1024.0, 1024.0 + 2.0 ** -10), (-2.0 ** -30, 2.0 ** -30)]
 
 
 # ------------------------------------------------------------------ implementation side
@@ -119,14 +121,31 @@ def make_impl(case):
     f = TableF(str(case.get("salt", 0)))
     grid = es.TrapezoidalGrid(a, b, boundary=bool(case.get("boundary", True)))
     op = es.Integration(f, grid=grid, dim=dim, reference_solution=None)
+    ft = case.get("ftype", "bool")
+    flag = (lambda v: bool(v)) if ft == "bool" else ((lambda v: int(bool(v))) if ft == "int" else (lambda v: np.bool_(bool(v))))
     sa = Hooked(a, b, number_of_refinements_before_extend=case["nrbe"], version=case["version"],
-                automatic_extend_split=bool(case["auto"]), split_single_dim=bool(case["single"]), operation=op)
+                automatic_extend_split=flag(case["auto"]), split_single_dim=flag(case["single"]), operation=op)
     sa.verif_log = []
     reset_use(sa)
     with contextlib.redirect_stdout(io.StringIO()):
-        sa.performSpatiallyAdaptiv(case["lmin"], case["lmax"], Scripted(), tol=-1, max_evaluations=1, do_plot=False,
+        sa.performSpatiallyAdaptiv(case["lmin"], case["lmax"], Scripted(), tol=-1, max_evaluations=-1, do_plot=False,
                                    print_output=False)
+    sa.verif_initial = list(sa.refinement.get_objects())
     return sa, f
+
+
+def preorder_nodes(sa):
+    """every object of the refinement tree in preorder, starting from the initial objects and following the objects'
+    own `children` lists (with split_single_dim the root's child list is the container, so the root is no entry point)"""
+    out = []
+
+    def visit(n):
+        out.append(n)
+        for c in n.children:
+            visit(c)
+    for o in sa.verif_initial:
+        visit(o)
+    return out
 
 
 def reset_use(sa):
@@ -222,7 +241,7 @@ def run_continue(sa, case):
             return 0.0
 
     with contextlib.redirect_stdout(io.StringIO()):
-        sa.performSpatiallyAdaptiv(case["lmin"], case["lmax"], Scripted(), tol=-1, max_evaluations=1, do_plot=False,
+        sa.performSpatiallyAdaptiv(case["lmin"], case["lmax"], Scripted(), tol=-1, max_evaluations=-1, do_plot=False,
                                    print_output=False, refinement_container=sa.refinement)
 
 
@@ -408,6 +427,11 @@ def oracle_local(ctx, sa, f, case, tags, passes, assigned_ok=True):
                     ok = (not ctx.violation("exception", dict(tags, where="__call__"), dict(case, area=ai),
                                             {"exception": repr(e)[:300], "area": area_str(area)})) and ok
                     continue
+                if ai == 0:                    # the same query again: same answer
+                    with contextlib.redirect_stdout(io.StringIO()):
+                        vals2 = sa(mine)
+                    if not np.array_equal(np.asarray(vals), np.asarray(vals2)):
+                        ctx.corr_break("C07/__call__-repeated", dict(case, area=ai), {"first": str(vals)[:300], "second": str(vals2)[:300]})
                 bad = []
                 for p, v in zip(mine, vals):
                     want = f.eval(p)
@@ -438,7 +462,16 @@ def fmt_pass_impl(p):
 def compare_state(ctx, drv, sa, f, case, tags, cmp, thorough):
     """all observables of one reached state; returns False if the oracle fired"""
     objs = sa.refinement.get_objects()
+    snapshot = stored_state(sa)
     cmp("objects", ";".join(area_str(o) for o in objs), drv.ask("objects"))
+    # every object of the tree, inner nodes too (a child must not share / overwrite its parent's box or counters)
+    nodes = preorder_nodes(sa)
+    cmp("nodes", ";".join(area_str(o) for o in nodes), drv.ask("nodes"))
+    eff = case["nrbe"] + (case["dim"] if case["single"] else 1)
+    cmp("node-options", ";".join("%d|%d|%d" % (int(n.numberOfRefinementsBeforeExtend), int(bool(n.automatic_extend_split)),
+                                               int(bool(n.splitSingleDim))) for n in nodes + [sa.root_cell]),
+        ";".join(["%d|%d|%d" % (eff, int(bool(case["auto"])), int(bool(case["single"])))] * (len(nodes) + 1)))
+    cmp("distinct-dictionaries", str(len(set(id(n.levelvec_dict) for n in nodes))), str(len(nodes)))
     cmp("leaves", ";".join(area_str(o) for o in tree_leaves(sa.root_cell)), drv.ask("leaves"))
     cmp("lmax", str(int(sa.lmax[0])) if len(set(int(x) for x in sa.lmax)) == 1 else str(list(sa.lmax)), drv.ask("lmax"))
     cmp("popArray", "[" + ",".join(str(int(x)) for x in sa.refinement.popArray) + "]", drv.ask("pop"))
@@ -458,12 +491,22 @@ def compare_state(ctx, drv, sa, f, case, tags, cmp, thorough):
     # the stateful single calls on a sample of areas (dictionary mutation mirrored call by call)
     for ai in ctx.rng.sample(range(len(objs)), min(len(objs), 3 if not thorough else 6)):
         for cg in sa.scheme:
+            arg = [int(x) for x in cg.levelvector]
             try:
                 lv, do = sa.coarsen_grid(cg.levelvector, objs[ai])
                 impl = "%s|%d" % (",".join(str(int(x)) for x in lv), int(do))
+                for j in range(len(lv)):      # the caller may do what it likes with the returned list
+                    lv[j] = lv[j] + 1
             except AssertionError:
                 impl = "assert"
             cmp("coarsen_grid", impl, drv.ask("cg %d %s" % (ai, ",".join(str(int(x)) for x in cg.levelvector))))
+            cmp("coarsen_grid-leaves-its-argument-alone", str([int(x) for x in cg.levelvector]), str(arg))
+            try:                              # the same query again: same answer
+                lv, do = sa.coarsen_grid(cg.levelvector, objs[ai])
+                impl2 = "%s|%d" % (",".join(str(int(x)) for x in lv), int(do))
+            except AssertionError:
+                impl2 = "assert"
+            cmp("coarsen_grid-repeated", impl2, drv.ask("cg %d %s" % (ai, ",".join(str(int(x)) for x in cg.levelvector))))
     ok_local, verdicts = oracle_local(ctx, sa, f, case, tags, passes)
     ok = ok and ok_local
     for ai in range(len(objs)):
@@ -472,7 +515,12 @@ def compare_state(ctx, drv, sa, f, case, tags, cmp, thorough):
     ctx.count("areas_invalid", sum(1 for v in verdicts if not v))
     # leaf assignment
     pts = test_points(ctx, sa, case, 12 if not thorough else 30)
-    m = impl_assign(sa, pts)
+    pts_arg = list(pts)
+    m = impl_assign(sa, pts_arg)
+    cmp("assignment-leaves-its-argument-alone", str(pts_arg), str(list(pts)))
+    m2 = impl_assign(sa, list(pts))
+    cmp("assignment-repeated", str(sorted((p, [id(a) for a in v]) for p, v in m2.items())),
+        str(sorted((p, [id(a) for a in v]) for p, v in m.items())))
     ok = oracle_assign(ctx, sa, case, tags, pts, m) and ok
     for p in pts:
         got = m.get(p, [])
@@ -480,7 +528,19 @@ def compare_state(ctx, drv, sa, f, case, tags, cmp, thorough):
                                                         ",".join(frac_str(float(x)) for x in got[0].end)) if len(got) == 1 else "multiple")
         cmp("assign", impl, drv.ask("assign " + ",".join(frac_str(x) for x in p)))
     ctx.count("points_assigned", len(pts))
+    # all of the above were queries: nothing stored may have changed
+    cmp("queries-are-pure", stored_state(sa), snapshot)
     return ok
+
+
+def stored_state(sa):
+    """what the object has stored: the areas (all nodes), their values, the combined result, lmax, the scheme"""
+    parts = [";".join(area_str(o) for o in sa.refinement.get_objects()), ";".join(area_str(o) for o in preorder_nodes(sa)),
+             str([None if o.value is None else [float(x) for x in np.atleast_1d(o.value)] for o in sa.refinement.get_objects()]),
+             str([float(x) for x in np.atleast_1d(sa.operation.integral)]), str([int(x) for x in sa.lmax]),
+             str([(tuple(int(x) for x in cg.levelvector), float(cg.coefficient)) for cg in sa.scheme]),
+             str(list(sa.refinement.popArray))]
+    return " # ".join(parts)
 
 
 def gen_round(ctx, sa, case):
@@ -491,6 +551,15 @@ def gen_round(ctx, sa, case):
     ncont = sum(1 for x in case["rounds"] if x.get("continue"))
     if int(sa.lmax[0]) > case["lmax"] and ncont < 2 and r.random() < 0.3:
         return {"continue": True}
+    x = r.random()
+    nspecial = sum(1 for y in case["rounds"] if y.get("toggle") or y.get("continue2") or y.get("restart"))
+    if nspecial < 3 and case["rounds"]:
+        if x < 0.10:
+            return {"toggle": r.choice(TOGGLES), "arg": r.randrange(50)}
+        if x < 0.14:
+            return {"continue2": True}
+        if x < 0.16:
+            return {"restart": True}
     k = r.choice([1, 1, 1, 2, 2, 3]) if n > 1 else 1
     if r.random() < 0.05:
         k = min(n, 6)
@@ -513,6 +582,60 @@ def gen_round(ctx, sa, case):
     return {"pos": pos, "dec": dec}
 
 
+def estimator_exception(ctx, tags, case, e, where):
+    """an exception of the implementation on a valid input is a violation with a replayable case.  Inside the region of
+    the known finding (versions 1/2 with lmin >= 2: invalid local schemes => inconsistent point counts => the asserts of
+    set_extend_benefit / set_split_benefit) it is reported under the probe of that finding."""
+    import traceback
+    ctx.count("impl_exception_%s_%s" % (where, type(e).__name__))
+    lst = ctx.extra.setdefault("impl_exceptions", [])
+    if len(lst) < 3:
+        lst.append({"case": case, "traceback": traceback.format_exc()[-700:]})
+    if tags["version"] in (1, 2) and tags["lmin"] >= 2 and isinstance(e, AssertionError):
+        return ctx.violation("local-combination", dict(tags, clause="estimator-assertion"), case, {"exception": repr(e)[:300], "where": where})
+    return ctx.violation("exception", dict(tags, where=where), case, {"exception": repr(e)[:300],
+                                                                      "traceback": traceback.format_exc()[-500:]})
+
+
+TOGGLES = ["points_component_grid", "points_and_weights", "reinit_new_objects", "reset_dictionary", "total_num_points"]
+
+
+def run_toggle(ctx, drv, sa, f, name, arg, cmp):
+    """rarely used public calls in the middle of a sequence; none of them may change what C07 observes"""
+    objs = sa.refinement.get_objects()
+    with contextlib.redirect_stdout(io.StringIO()):
+        if name == "points_component_grid":
+            # a single component grid queried OUT of scheme order: coarsen_grid of that level vector on every area
+            # (this changes who owns a coarsened level vector in levelvec_dict); mirrored call by call in the model
+            # (the implementation's dictionaries hold a complete in-order pass from the last observation; bring the
+            # model's dictionaries, which only follow single `cg` calls, to the same state first)
+            for ai, area in enumerate(objs):
+                for g in sa.scheme:
+                    try:
+                        lv, do = sa.coarsen_grid(g.levelvector, area)
+                        impl = "%s|%d" % (",".join(str(int(x)) for x in lv), int(do))
+                    except AssertionError:
+                        impl = "assert"
+                    cmp("coarsen_grid", impl, drv.ask("cg %d %s" % (ai, ",".join(str(int(x)) for x in g.levelvector))))
+            cg = sa.scheme[arg % len(sa.scheme)]
+            sa.get_points_component_grid_not_null(cg.levelvector)
+            for ai, area in enumerate(objs):
+                try:
+                    lv, do = sa.coarsen_grid(cg.levelvector, area)
+                    impl = "%s|%d" % (",".join(str(int(x)) for x in lv), int(do))
+                except AssertionError:
+                    impl = "assert"
+                cmp("coarsen_grid-out-of-order", impl, drv.ask("cg %d %s" % (ai, ",".join(str(int(x)) for x in cg.levelvector))))
+        elif name == "points_and_weights":
+            sa.get_points_and_weights()
+        elif name == "reinit_new_objects":
+            sa.refinement.reinit_new_objects()
+        elif name == "reset_dictionary":
+            f.reset_dictionary()
+        elif name == "total_num_points":
+            sa.get_total_num_points()
+
+
 def run_history(ctx, drv, case, rounds=None, nrounds=0, thorough=False):
     """rounds=None: draw them from the rng (they depend on the implementation's current number of areas)"""
     tags = {"version": case["version"], "lmin": case["lmin"], "dim": case["dim"], "auto": int(case["auto"]),
@@ -526,15 +649,41 @@ def run_history(ctx, drv, case, rounds=None, nrounds=0, thorough=False):
             ok = False
             ctx.corr_break("C07/" + obs, dict(case, rounds=list(case["rounds"])), {"impl": str(impl)[:600], "model": str(model)[:600]})
 
+    def cur():
+        return dict(case, rounds=list(case["rounds"]))
+
+    def observe(where):
+        """use-site oracle + all observables of the reached state; an exception of the implementation while it is being
+        observed is a violation, not a harness crash"""
+        nonlocal ok
+        try:
+            ok = oracle_use(ctx, drv, sa, cur(), tags, cmp, where) and ok
+            ok = compare_state(ctx, drv, sa, f, cur(), tags, cmp, thorough) and ok
+        except Exception as e:
+            if isinstance(e, RuntimeError) and "model driver" in str(e):
+                raise
+            estimator_exception(ctx, tags, cur(), e, "observe-after-" + where)
+            ok = False
+        reset_use(sa)
+
+    # (b) a sibling object of the same class is alive and works in between (other version / options, same level vectors)
+    sib = None
+    if case.get("sibling"):
+        # same boxes, levels and splitting rule (equal keys), other coarsening version and integrand
+        sc = dict(case, version=(case["version"] + 1) % 3, auto=False, script=True, salt=case.get("salt", 0) + 1, sibling=False, boundary=True)
+        try:
+            sib, _ = make_impl(sc)
+            sib_case = sc
+        except Exception as e:
+            estimator_exception(ctx, tags, dict(case), e, "sibling-init")
+            return False, case
     try:
         sa, f = make_impl(case)
     except Exception as e:  # the property promises a state for every configuration of its quantifier
-        ctx.violation("exception", dict(tags, where="init"), dict(case), {"exception": repr(e)[:300]})
+        estimator_exception(ctx, tags, dict(case), e, "init")
         return False, case
     cmp("init", "ok", drv.ask(init_line(case)))
-    ok = oracle_use(ctx, drv, sa, dict(case), tags, cmp, "init") and ok
-    ok = compare_state(ctx, drv, sa, f, dict(case), tags, cmp, thorough) and ok
-    reset_use(sa)
+    observe("init")
     i = 0
     while ok:
         if rounds is None:
@@ -547,36 +696,68 @@ def run_history(ctx, drv, case, rounds=None, nrounds=0, thorough=False):
             rnd = rounds[i]
         i += 1
         case["rounds"].append(rnd)
-        if rnd.get("continue"):
-            # continuation of the finished run; the model's state simply continues (lmax is part of the state)
+        if rnd.get("continue") or rnd.get("continue2") or rnd.get("restart") or rnd.get("toggle"):
+            kind = "continue" if rnd.get("continue") else ("continue2" if rnd.get("continue2") else ("restart" if rnd.get("restart") else "toggle"))
             try:
-                run_continue(sa, case)
+                if kind == "continue":
+                    # continuation of the finished run; the model's state simply continues (lmax is part of the state)
+                    run_continue(sa, case)
+                elif kind == "continue2":
+                    with contextlib.redirect_stdout(io.StringIO()):
+                        sa.continue_adaptive_refinement(tol=-1, max_evaluations=-1)
+                elif kind == "restart":
+                    # a second run on the same object starts from scratch
+                    _, _, ErrorCalculator = _imports()
+
+                    class Scripted(ErrorCalculator):
+                        def calc_error(self, refine_object, norm, volume_weights=None):
+                            return 0.0
+                    with contextlib.redirect_stdout(io.StringIO()):
+                        sa.performSpatiallyAdaptiv(case["lmin"], case["lmax"], Scripted(), tol=-1, max_evaluations=-1,
+                                                   do_plot=False, print_output=False)
+                    sa.verif_initial = list(sa.refinement.get_objects())
+                    cmp("restart", "ok", drv.ask(init_line(case)))
+                else:
+                    run_toggle(ctx, drv, sa, f, rnd["toggle"], rnd.get("arg", 0), cmp)
             except Exception as e:
-                ctx.violation("exception", dict(tags, where="continue"), dict(case, rounds=list(case["rounds"])),
-                              {"exception": repr(e)[:300]})
+                estimator_exception(ctx, tags, cur(), e, kind)
                 ok = False
                 break
-            ok = oracle_use(ctx, drv, sa, dict(case, rounds=list(case["rounds"])), tags, cmp, "continue") and ok
-            ctx.count("op_continue")
-            ctx.count("op_continue_lmax_grown_by_%d" % min(3, int(sa.lmax[0]) - case["lmax"]))
-            ok = compare_state(ctx, drv, sa, f, dict(case, rounds=list(case["rounds"])), tags, cmp, thorough) and ok
-            reset_use(sa)
+            ctx.count("op_" + kind + ("_" + rnd["toggle"] if kind == "toggle" else ""))
+            if kind == "continue":
+                ctx.count("op_continue_lmax_grown_by_%d" % min(3, int(sa.lmax[0]) - case["lmax"]))
+            observe(kind)
             continue
+        if sib is not None:
+            # the sibling does the same round FIRST (as far as its container allows), with queries on all its areas
+            try:
+                n = len(sib.refinement.get_objects())
+                pos = [p_ for p_ in rnd["pos"] if p_ < n]
+                dec = {k_: ({"dims": v_["dims"]} if "dims" in v_ else {}) for k_, v_ in rnd.get("dec", {}).items() if int(k_) < n}
+                if sib_case["single"]:
+                    for p_ in pos:
+                        dec.setdefault(str(p_), {"dims": [0]})
+                        dec[str(p_)].setdefault("dims", [0])
+                if pos:
+                    run_round(sib, {"pos": pos, "dec": dec}, sib_case)
+                for area in sib.refinement.get_objects()[:8]:
+                    impl_pass(sib, area)
+                with contextlib.redirect_stdout(io.StringIO()):
+                    sib([tuple(0.5 * (float(x) + float(y)) for x, y in zip(case["a"], case["b"]))])
+                ctx.count("sibling_rounds")
+            except Exception as e:
+                estimator_exception(ctx, tags, cur(), e, "sibling-round")
+                ok = False
+                break
         try:
             log = run_round(sa, rnd, case)
         except Exception as e:
-            # error-estimator machinery of automatic_extend_split / split_single_dim working on real numbers;
-            # no state to compare -- counted, the history ends here
-            kind = type(e).__name__
-            ctx.count("impl_exception_in_round_" + kind)
-            ok = oracle_use(ctx, drv, sa, dict(case, rounds=list(case["rounds"])), tags, cmp, "refine-aborted") and ok
-            import traceback
-            lst = ctx.extra.setdefault("impl_exceptions_error_estimators", [])
-            if len(lst) < 3:
-                lst.append({"case": dict(case, rounds=list(case["rounds"])), "traceback": traceback.format_exc()[-700:]})
-            if not (case["auto"] or case["single"]) or case["script"]:
-                ctx.violation("exception", dict(tags, where="refine"), dict(case, rounds=list(case["rounds"])),
-                              {"exception": repr(e)[:300]})
+            # the error-estimator machinery of automatic_extend_split / split_single_dim raised: no state to compare
+            try:
+                ok = oracle_use(ctx, drv, sa, cur(), tags, cmp, "refine-aborted") and ok
+            except Exception:
+                pass
+            if estimator_exception(ctx, tags, cur(), e, "refine"):
                 ok = False
             break
         if [p for (p, _, _) in log] != rnd["pos"]:
@@ -589,9 +770,19 @@ def run_history(ctx, drv, case, rounds=None, nrounds=0, thorough=False):
             cmp("refine-result", impl, drv.ask("refine %d %d %s" % (p, 1 if kind == "ext" else 0,
                                                                  ",".join(map(str, dims)) if dims else "-")))
         cmp("endround", "ok", drv.ask("endround"))
-        ok = oracle_use(ctx, drv, sa, dict(case, rounds=list(case["rounds"])), tags, cmp, "refine") and ok
-        ok = compare_state(ctx, drv, sa, f, dict(case, rounds=list(case["rounds"])), tags, cmp, thorough) and ok
-        reset_use(sa)
+        observe("refine")
+        if sib is not None and ok:
+            # the sibling queries again after this object worked; then this object must still be what it was
+            before = stored_state(sa)
+            try:
+                for area in sib.refinement.get_objects()[:8]:
+                    impl_pass(sib, area)
+            except Exception as e:
+                estimator_exception(ctx, tags, cur(), e, "sibling-query")
+                ok = False
+                break
+            cmp("sibling-leaves-this-object-alone", stored_state(sa), before)
+            observe("sibling-worked")
     return ok, case
 
 
@@ -616,6 +807,37 @@ def run_pass_case(ctx, drv, pc):
             impl.append("%s|%d" % (",".join(str(int(x)) for x in c), int(do)))
         except AssertionError:
             impl.append("assert")
+    # oracle on the implementation alone: what an area of coarsening c computes under the scheme (lmin, lmax) -- reachable by
+    # a history whenever 0 <= c <= lmax - lmin (start at lmax - c, extend one area c times) -- must be a valid combination:
+    # at every point level t below some computed grid the coefficients of the computed grids >= t sum to 1
+    if pc.get("scheme_order") and 0 <= pc["c"] <= pc["lmax"] - pc["lmin"] and "assert" not in impl:
+        from sparseSpACE.combiScheme import CombiScheme
+        coeffs = [int(g.coefficient) for g in CombiScheme(dim).getCombiScheme(pc["lmin"], pc["lmax"], do_print=False)]
+        comp = []
+        for s_, k in zip(impl, coeffs):
+            lvs_, do = s_.split("|")
+            if do == "1":
+                comp.append((tuple(int(x) for x in lvs_.split(",")), k))
+        badt = None
+        if not comp:
+            badt = ("nothing-computed",)
+        else:
+            seen_t = set()
+            for (v, _) in comp:
+                for t in itertools.product(*[range(0, x + 1) for x in v]):
+                    if t in seen_t:
+                        continue
+                    seen_t.add(t)
+                    sm = sum(k for (w, k) in comp if all(w[d] >= t[d] for d in range(dim)))
+                    if sm != 1:
+                        badt = (t, sm)
+                        break
+                if badt:
+                    break
+        if badt is not None:
+            ctx.violation("local-combination", {"version": pc["version"], "lmin": pc["lmin"], "dim": dim, "auto": 0, "single": 0,
+                                                "clause": "coefficient-sum", "where": "fresh-area"}, pc,
+                          {"computed": comp[:12], "point_level_and_sum": [str(x) for x in badt]})
     model = drv.ask("pass %d %d %d %d %d %s" % (pc["version"], dim, pc["lmin"], pc["lmax"], pc["c"],
                                                ";".join(",".join(map(str, lv)) for lv in pc["lvs"])))
     if ";".join(impl) != model:
@@ -653,11 +875,14 @@ def gen_case(ctx, thorough, k):
     single = 0.2 < x < 0.5
     script = r.random() < 0.7
     doms = [r.choice(DOMAINS) for _ in range(dim)] if r.random() < 0.5 else [DOMAINS[0]] * dim
+    if r.random() < 0.2:
+        doms = [r.choice(EXTREME_DOMAINS + DOMAINS[:2]) for _ in range(dim)]
     integral = all(float(v) == int(v) for d in doms for v in d)
     btype = r.choice(BTYPES[1:]) if integral and r.random() < 0.5 else "float"
     case = {"kind": "history", "dim": dim, "lmin": lmin, "lmax": lmax, "nrbe": r.choice([0, 1, 1, 2]), "version": version,
             "auto": auto, "single": single, "script": script, "a": [d[0] for d in doms], "b": [d[1] for d in doms],
-            "salt": r.randrange(1000), "btype": btype, "boundary": r.random() >= 0.25}
+            "salt": r.randrange(1000), "btype": btype, "boundary": r.random() >= 0.25,
+            "ftype": r.choice(["bool", "bool", "int", "npbool"]), "sibling": r.random() < 0.12}
     nr = r.randint(1, 6 if dim == 2 else 4) if not thorough else r.randint(2, 9 if dim == 2 else 5)
     return case, nr
 
@@ -680,9 +905,27 @@ def run(ctx):
     ctx.extra["monitored_per_state"] = ("localValid (sound executable validity check, theorem localValid_sound) is evaluated by the driver on every area of every "
                                         "explored state for versions 1 and 2; for version 0 validity is a theorem for all histories")
     drv = ctx.driver("drv_c07")
+    import extendsplit_gen, sys
+    extendsplit_gen.run(ctx, drv, sys.modules[__name__])      # translator tie of coarsen_grid / flexible evaluation (see extendsplit_gen.py)
     budget = 95 if not thorough else 540
-    n = 60 if not thorough else 700
+    n = 52 if not thorough else 700
     npass = 150 if not thorough else 1500
+    # every run: dimension 4 on a non-cubic box far from the origin; a sibling object at work; toggles; second run
+    case = {"kind": "history", "dim": 4, "lmin": 1, "lmax": 2, "nrbe": 1, "version": 0, "auto": False, "single": False, "script": True,
+            "a": [0.0, -1.0, 4096.0, 2.0], "b": [0.5, 1.0, 4097.0, 6.0], "salt": 4, "btype": "float", "ftype": "int"}
+    ok, case = run_history(ctx, drv, case, [{"pos": [5], "dec": {}}], 0, thorough)
+    ctx.case(case, nontrivial=True)
+    for ver, single in ((0, False), (1, True)):
+        case = {"kind": "history", "dim": 2, "lmin": 1, "lmax": 2, "nrbe": 0, "version": ver, "auto": False, "single": single,
+                "script": True, "a": [-8192.0, 0.0], "b": [-8191.5, 2.0 ** -40], "salt": 5, "btype": "float", "ftype": "npbool",
+                "sibling": True}
+        d0 = {"0": {"dims": [1]}} if single else {}
+        rounds = [{"pos": [0], "dec": d0}, {"toggle": "points_component_grid", "arg": 1}, {"pos": [1], "dec": ({"1": {"dims": [0, 1]}} if single else {})},
+                  {"continue2": True}, {"toggle": "reinit_new_objects"}, {"pos": [2], "dec": ({"2": {"dims": [0]}} if single else {})},
+                  {"restart": True}, {"pos": [0], "dec": d0}]
+        ok, case = run_history(ctx, drv, case, rounds, 0, thorough)
+        ctx.count("sibling_toggle_stream")
+        ctx.case(case, nontrivial=True)
     # exhaustive sweep of the parameter box of theorem v12_local_valid_lmin1_bounded (and version 0 on the same box):
     # what an area computes depends only on (version, dim, lmin, lmax, coarsening), so agreement of coarsen_grid on
     # the whole box carries the kernel-checked validity of the model's `computed` over to the implementation
@@ -692,7 +935,7 @@ def run(ctx):
             for lmax in range(1, 6):
                 lvs = [[int(x) for x in g.levelvector] for g in CombiScheme(dim).getCombiScheme(1, lmax, do_print=False)]
                 for c in range(0, lmax + 1):
-                    pc = {"kind": "pass", "version": ver, "dim": dim, "lmin": 1, "lmax": lmax, "c": c, "lvs": lvs}
+                    pc = {"kind": "pass", "version": ver, "dim": dim, "lmin": 1, "lmax": lmax, "c": c, "lvs": lvs, "scheme_order": True}
                     run_pass_case(ctx, drv, pc)
                     ctx.count("sweep_lmin1_box")
                     ctx.case(pc, nontrivial=c > 0)
@@ -721,6 +964,16 @@ def run(ctx):
             ok, case = run_history(ctx, drv, case, None, 4, thorough)
             ctx.count("auto_noboundary_stream_v%d" % ver)
             ctx.case(case, nontrivial=len(case["rounds"]) > 0)
+    # every run: one area is extended again and again, so lmax grows to lmax0 + 4 while the others lag behind with
+    # coarsening 1..4 (coarsening = lmax - lmax0: all of lmax - 1, lmax - 2, lmax - 3 occur), versions 0-2
+    for ver in (0, 1, 2):
+        for lmax0 in (1, 3):
+            case = {"kind": "history", "dim": 2, "lmin": 1, "lmax": lmax0, "nrbe": 0, "version": ver, "auto": False, "single": False,
+                    "script": True, "a": [0.0, 0.0], "b": [1.0, 1.0], "salt": 3, "btype": "float"}
+            rounds = [{"pos": [0], "dec": {}}] + [{"pos": [3], "dec": {}}] * 3 + [{"restart": True}, {"pos": [1], "dec": {}}]
+            ok, case = run_history(ctx, drv, case, rounds, 0, thorough)
+            ctx.count("deep_extend_stream_v%d_lmax%d" % (ver, lmax0))
+            ctx.case(case, nontrivial=True)
     # every run: finished runs in which lmax has grown are continued (performSpatiallyAdaptiv(..., refinement_container=...))
     # and refined further until lmax has grown three more times, for every coarsening version
     for ver in (0, 1, 2):
